@@ -212,6 +212,45 @@ pub fn judge(_cfg: &Config, case: &Case, l: &mut Local) {
                         true,
                         hash_bytes2(code, text),
                     );
+                    // the wrapper's classification predicates dispatch on the body type: with no user reference in
+                    // block 3 they must answer what the body's own predicates answer
+                    if !text.contains("{108:") {
+                        use swift_mt_message::messages::{MT103, MT202, MT205};
+                        let mut diffs: Vec<String> = Vec::new();
+                        match code.as_str() {
+                            "103" => {
+                                if let Ok(Ok(m)) = guard(|| SwiftParser::parse::<MT103>(text)) {
+                                    for (n, w, b) in [("has_reject_codes", m.has_reject_codes(), m.fields.has_reject_codes()), ("has_return_codes", m.has_return_codes(), m.fields.has_return_codes()), ("is_stp_message", m.is_stp_message(), m.fields.is_stp_compliant())] {
+                                        if w != b {
+                                            diffs.push(format!("{n}: wrapper {w}, body {b}"));
+                                        }
+                                    }
+                                }
+                            }
+                            "202" => {
+                                if let Ok(Ok(m)) = guard(|| SwiftParser::parse::<MT202>(text)) {
+                                    for (n, w, b) in [("has_reject_codes", m.has_reject_codes(), m.fields.has_reject_codes()), ("has_return_codes", m.has_return_codes(), m.fields.has_return_codes()), ("is_cover_message", m.is_cover_message(), m.fields.is_cover_message())] {
+                                        if w != b {
+                                            diffs.push(format!("{n}: wrapper {w}, body {b}"));
+                                        }
+                                    }
+                                }
+                            }
+                            "205" => {
+                                if let Ok(Ok(m)) = guard(|| SwiftParser::parse::<MT205>(text)) {
+                                    for (n, w, b) in [("has_reject_codes", m.has_reject_codes(), m.fields.has_reject_codes()), ("has_return_codes", m.has_return_codes(), m.fields.has_return_codes()), ("is_cover_message", m.is_cover_message(), m.fields.is_cover_message())] {
+                                        if w != b {
+                                            diffs.push(format!("{n}: wrapper {w}, body {b}"));
+                                        }
+                                    }
+                                }
+                            }
+                            _ => {}
+                        }
+                        for d in diffs {
+                            v(l, "SwiftMessage-predicates", code, &format!("differs-from-body:{}", d.split(':').next().unwrap_or("")), format!("MT{code}: {d}"), case);
+                        }
+                    }
                     // the full-message route and the text-block route of the same typed API: what one takes the
                     // other takes, with the same fields (an input normalisation on one route only shows here)
                     if let Some(b4) = crate::corpus::block4_of(text)
@@ -489,6 +528,14 @@ pub fn run(cfg: &Config) -> i32 {
                 {
                     cases.push(Case::Code { code: lay.mt.to_string(), text });
                 }
+            }
+        }
+    }
+    // code-word bodies for the three types with classification predicates (field 72 rewritten)
+    for (mt, text) in bases.iter().filter(|b| matches!(b.0.as_str(), "103" | "202" | "205")) {
+        for f72 in ["/RETN/AC04", "/REJT/AC01", "/COV/COVER", "/INS/BANK\n/RETN/AC04", "/REJT/AC01\n/RETN/AC04"] {
+            if let Some(t) = super::c17::rewrite(text, Some(f72), None, None) {
+                cases.push(Case::Code { code: mt.clone(), text: t });
             }
         }
     }
